@@ -34,6 +34,22 @@ TRUSTED_BASE = ["pvc (own VC generator: /verif/pvc)", "z3 5.1", "Lean 4.33 kerne
 LEVEL = "other"
 
 
+def native_gate_asymmetric(n, mag, asym_v):
+    """Call the real gate on the upper-triangular matrix diag(mag, ..., mag) with C[0, n-1] = asym_v: largest entry mag,
+    largest asymmetry asym_v, eigenvalues all equal to mag (positive)."""
+    import numpy as np
+
+    py = native.repo_import("formak.python")
+    n = max(n, 2)
+    C = np.diag(np.array([mag] * n, dtype=float))
+    C[0, n - 1] = asym_v
+    try:
+        py.assert_valid_covariance(C)
+        return "accepted", C
+    except AssertionError:
+        return "refused", C
+
+
 def native_gate(n, lam, norm):
     """Call the real gate on diag(norm, ..., norm, lam): symmetric, spectrum exactly {norm, lam}."""
     import numpy as np
@@ -112,6 +128,93 @@ def mass_model_history(steps, dt, updates=True):
     return True, "ok"
 
 
+PATTERN = ["proc", "v", "proc", "proc", "z", "v", "proc", "z", "v", "proc"]
+
+
+def mass_filter():
+    from replay import shim
+
+    py = shim.install()
+    ui = native.repo_import("formak.ui")
+    dts = ui.Symbol("dt")
+    tp = {k: ui.Symbol(k) for k in ["mass", "z", "v", "a"]}
+    thrust = ui.Symbol("thrust")
+    state_model = {tp["mass"]: tp["mass"], tp["z"]: tp["z"] + dts * tp["v"], tp["v"]: tp["v"] + dts * tp["a"], tp["a"]: -9.81 * tp["mass"] + thrust}
+    model = ui.Model(dt=dts, state=set(tp.values()), control={thrust}, state_model=state_model)
+
+    def build(unit=1.0):
+        # `unit`: the same physical filter with every quantity expressed in a unit 1/unit times as large (variances scale by unit^2)
+        return py.compile_ekf(model, {thrust: 1.0 * unit * unit}, {"simple": {"v": tp["v"]}, "alt": {"z": tp["z"]}}, {"simple": {"v": 1.0 * unit * unit}, "alt": {"z": 0.5 * unit * unit}}, config={"innovation_filtering": None})
+
+    return build
+
+
+def diffuse_history(seed, prior_scale, unit=1.0, build=None):
+    """The project's mass/z/v/a model from a diffuse prior (prior_scale times the sensor noise), predictions interleaved with velocity and
+    altitude updates; `unit` = 2^k re-expresses the SAME history in other units (exact in binary floating point: the model is linear).
+    Returns (verdict, detail, list of covariances)."""
+    import numpy as np
+
+    ekf = (build or mass_filter())(unit)
+    rng = np.random.default_rng(seed)
+    vals = {"mass": rng.uniform(0.1, 5), "z": rng.normal(), "v": rng.normal(), "a": rng.normal()}
+    s = ekf.State(**{k: v * unit for k, v in vals.items()})
+    A = rng.normal(size=(4, 4))
+    P0 = prior_scale * (A @ A.T)
+    P0 = (P0 + P0.T) / 2
+    P = ekf.Covariance.from_data(P0 * unit * unit)
+    covs = []
+    for step, op in enumerate(PATTERN):
+        dtv, u, zv = rng.uniform(0.001, 0.1), rng.normal(), rng.normal()
+        try:
+            if op == "proc":
+                s, P = ekf.process_model(dtv, s, P, ekf.Control(thrust=u * unit))
+            elif op == "v":
+                s, P = ekf.sensor_model(s, P, sensor_key="simple", sensor_reading=ekf.make_reading("simple", v=zv * unit))
+            else:
+                s, P = ekf.sensor_model(s, P, sensor_key="alt", sensor_reading=ekf.make_reading("alt", z=zv * unit))
+        except AssertionError:
+            mag = float(np.max(np.abs(P.data)))
+            asym_v = float(np.max(np.abs(P.data - P.data.T)))
+            w = np.linalg.eigvalsh((P.data + P.data.T) / 2)
+            return "refused", f"step {step} ({op}) refused the covariance the filter itself produced: largest entry {mag:.3g}, largest asymmetry {asym_v:.3g} ({asym_v / mag:.2g} relative), smallest eigenvalue {w.min():.3g}", covs
+        covs.append(P.data.copy())
+    return "completed", "", covs
+
+
+def diffuse_and_units(run, seeds):
+    """(a) diffuse priors (1e6 and 1e8 times the sensor noise) are never refused; (b) the verdict and the covariances do not depend on the
+    unit the state is expressed in (factor 2^k: the whole computation scales exactly)."""
+    import numpy as np
+
+    build = mass_filter()
+    fails = 0
+    n_hist = 0
+    for seed in seeds:
+        for kappa in (1e6, 1e8):
+            n_hist += 1
+            run.native_runs += 1
+            verdict, why, _ = diffuse_history(seed, kappa, build=build)
+            if verdict != "completed":
+                fails += 1
+                run.findings.append(Finding("C09.py.history.diffuse_prior", "diffuse-prior-refused", f"mass/z/v/a model, prior {kappa:g} x sensor noise, history seed {seed}: {why}", {"language": "python", "inputs": {"model": "diffuse", "seed": seed, "prior_scale": kappa, "unit": 1.0}, "oracle_verdict": why}, True))
+                return fails, n_hist
+    for seed in seeds[:3]:
+        base = diffuse_history(seed, 100.0, build=build)
+        for k in (20, -20, 10):
+            unit = 2.0**k
+            n_hist += 1
+            run.native_runs += 1
+            verdict, why, covs = diffuse_history(seed, 100.0, unit=unit, build=build)
+            same = verdict == base[0] and len(covs) == len(base[2]) and all(np.array_equal(c, b * unit * unit) for c, b in zip(covs, base[2]))
+            if not same:
+                fails += 1
+                what = f"mass/z/v/a model, history seed {seed}: expressed in units 2^{-k} times as large (variances x 4^{k}) the filter {'is ' + verdict if verdict != base[0] else 'gives covariances that are not the scaled ones'} ({why or 'same history in the original units: ' + base[0]})"
+                run.findings.append(Finding("C09.py.history.unit_invariance", "unit-dependent", what, {"language": "python", "inputs": {"model": "diffuse", "seed": seed, "prior_scale": 100.0, "unit": unit}, "oracle_verdict": what}, True))
+                return fails, n_hist
+    return fails, n_hist
+
+
 def generic_history(seed, steps, dt, scale=1.0):
     """scale: prior variance `scale`, sensor noise `scale**2` (accurate sensors on a small-scale prior make S << 1), process noise `scale`."""
     import numpy as np
@@ -183,9 +286,30 @@ def check(run):
             return v.numerator_as_long() / v.denominator_as_long()
 
         nv, lv, mv = max(int(num(n)), 1), float(num(lam)), float(num(norm))  # a spectrum needs at least one eigenvalue
-        run.native_runs += 1
-        verdict, C = native_gate(nv, lv, mv)
         accept_clause = "accepts_relatively_psd" in ob.name
+        from pvc.np_model import asym as asym_f, max_abs as max_abs_f
+
+        av, gv = float(num(asym_f(z3.Const("C", gate.Mat)))), float(num(max_abs_f(z3.Const("C", gate.Mat))))
+        sym_part = (av > 64 * nv * 2**-53 * gv) if not accept_clause else False
+        run.native_runs += 1
+        if accept_clause:
+            # which conjunct of the acceptance region does the counter-model exercise?  try the symmetry witness first when the
+            # model's asymmetry is non-zero, then the spectral one
+            tried = []
+            confirmed = False
+            for cand in ((gv, av), (1e12, 1e12 * 64 * nv * 2**-54), (1e6, 1e6 * 64 * nv * 2**-54), (1e3, 1e3 * 64 * nv * 2**-54)):
+                if cand[0] <= 0 or cand[1] <= 0 or cand[1] > 64 * max(nv, 2) * 2**-53 * cand[0]:
+                    continue
+                verdict, C = native_gate_asymmetric(nv, cand[0], cand[1])
+                tried.append((cand, verdict))
+                if verdict == "refused":
+                    confirmed = True
+                    what = f"assert_valid_covariance refused the {max(nv,2)}x{max(nv,2)} matrix diag({cand[0]:g}) with one off-diagonal pair differing by {cand[1]:.3g} ({cand[1]/cand[0]:.2g} of the largest entry: symmetric up to rounding relative to its magnitude)"
+                    run.findings.append(Finding(ob.name, "relative-asymmetry-refused", what, {"language": "python", "inputs": {"n": max(nv, 2), "max_abs": cand[0], "asymmetry": cand[1]}, "solver_result": "sat", "counter_model": smt.model_to_dict(model), "oracle_verdict": verdict}, True))
+                    break
+            if confirmed:
+                continue
+        verdict, C = native_gate(nv, lv, mv)
         confirmed = (verdict == "refused") if accept_clause else (verdict == "accepted")
         what = (
             f"assert_valid_covariance {verdict} the {nv}x{nv} symmetric matrix diag({mv}, ..., {lv}) whose smallest eigenvalue {lv} is "
@@ -225,7 +349,11 @@ def check(run):
                     break
             if fails:
                 break
-    run.bounded.append({"what": "native float histories (predict + interleaved updates) through the real filter; oracle: no refusal, covariance symmetric and PSD relative to magnitude", "bound": f"{histories} histories x up to {steps} steps", "failures": fails, "counted_as_proved": False, "seconds": round(time.time() - t0, 1)})
+    if not fails:
+        f2, n2 = diffuse_and_units(run, list(range(5, 5 + (40 if run.tier == "thorough" else 12))))
+        fails += f2
+        histories += n2
+    run.bounded.append({"what": "native float histories (predict + interleaved updates) through the real filter; oracle: no refusal, covariance symmetric and PSD relative to magnitude; diffuse priors (1e6, 1e8 x sensor noise) on the mass model; the same history re-expressed in units 2^k (k = 20, -20, 10) gives the same verdict and exactly the scaled covariances", "bound": f"{histories} histories x up to {steps} steps", "failures": fails, "counted_as_proved": False, "seconds": round(time.time() - t0, 1)})
     if run.tier == "thorough":
         lean_lemmas(run)
     run.extra["evaluations"] = histories
@@ -242,10 +370,26 @@ def replay_file(payload):
         ok, why = singular_history(inp["steps"], inp["dt"])
         print("replay singular-covariance history:", why)
         return ok
+    if inp.get("model") == "diffuse":
+        verdict, why, covs = diffuse_history(inp["seed"], inp["prior_scale"], unit=inp.get("unit", 1.0))
+        if inp.get("unit", 1.0) != 1.0:
+            import numpy as np
+
+            base = diffuse_history(inp["seed"], inp["prior_scale"])
+            u2 = inp["unit"] ** 2
+            same = verdict == base[0] and len(covs) == len(base[2]) and all(np.array_equal(c, b * u2) for c, b in zip(covs, base[2]))
+            print(f"replay unit invariance (unit {inp['unit']:g}): {'same verdict and scaled covariances' if same else 'DIFFERS: ' + verdict + ' ' + why}")
+            return same
+        print("replay diffuse-prior history:", verdict, why)
+        return verdict == "completed"
     if inp.get("model") == "generic":
         ok, why = generic_history(inp["seed"], inp["steps"], inp["dt"], inp.get("scale", 1.0))
         print("replay generic history:", why)
         return ok
+    if "asymmetry" in inp:
+        verdict, C = native_gate_asymmetric(int(inp["n"]), inp["max_abs"], inp["asymmetry"])
+        print(f"replay gate on diag({inp['max_abs']:g}) with one off-diagonal pair differing by {inp['asymmetry']:g} (n={inp['n']}): {verdict}")
+        return False if payload.get("oracle_verdict") == verdict else True
     verdict, C = native_gate(max(int(inp["n"]), 1), inp["lam_min"], inp["norm2"])
     print(f"replay gate on diag({inp['norm2']},...,{inp['lam_min']}) (n={inp['n']}): {verdict}")
     return False if payload.get("oracle_verdict") == verdict else True
